@@ -221,3 +221,30 @@ func halfFreed(st *fstxn.FsState) []uint64 {
 	}
 	return res
 }
+
+// pendingShrinks lists the LIVE inodes of the logical disk whose ShrinkSize lies above their size
+// (a truncation that has not finished).
+func pendingShrinks(st *fstxn.FsState) []uint64 {
+	sup := st.Super
+	var res []uint64
+	for blk := uint64(sup.InodeStart()); blk < uint64(sup.DataStart()); blk++ {
+		data := st.Txn.Load(addr.MkAddr(common.Bnum(blk), 0), common.NBITBLOCK).Data
+		if allZero(data) {
+			continue
+		}
+		for slot := uint64(0); slot < common.INODEBLK; slot++ {
+			inum := (blk-uint64(sup.InodeStart()))*common.INODEBLK + slot
+			ip := inode.Decode(st.Txn.Load(sup.Inum2Addr(common.Inum(inum)), common.INODESZ*8), common.Inum(inum))
+			if ip.Kind != 0 && ip.ShrinkSize > (ip.Size+4095)/4096 {
+				res = append(res, inum)
+			}
+		}
+	}
+	return res
+}
+
+// inodeOnDisk renders the inode of the logical disk (size, ShrinkSize, pointers) for messages.
+func inodeOnDisk(st *fstxn.FsState, inum uint64) string {
+	ip := inode.Decode(st.Txn.Load(st.Super.Inum2Addr(common.Inum(inum)), common.INODESZ*8), common.Inum(inum))
+	return fmt.Sprintf("%v", ip)
+}
